@@ -38,6 +38,7 @@ type config struct {
 	v2    bool
 	dir   bool
 	cache int
+	redis bool // key storage in the fake Redis server (redis.go); the rig's dir is then the key prefix
 }
 
 var configs = []config{
@@ -70,6 +71,8 @@ type rig struct {
 	// getHook is installed on every v2 handle opened afterwards (tampering / relocation of stored rings).
 	getHook func(path string, data []byte) []byte
 	closers []func()
+	// redis, if set, is where the keys live instead of a directory / in-memory back end (redis.go)
+	redis *redisLoc
 }
 
 func newRig(cfg config, dir string) *rig {
@@ -94,6 +97,9 @@ func newRig(cfg config, dir string) *rig {
 func (g *rig) open(cache int) (ksrig.FullKeyStore, error) {
 	g.nOpen++
 	handle := fmt.Sprintf("h%d", g.nOpen)
+	if g.redis != nil {
+		return g.openRedis(cache, handle)
+	}
 	if !g.cfg.v2 {
 		rs := ksrig.NewRecStorage(nil, g.log, handle)
 		ks, err := ksrig.V1WithStorage(g.dir, g.master, cache, rs)
@@ -134,6 +140,12 @@ func (g *rig) close() {
 
 func (g *rig) destroy() {
 	g.close()
+	if g.redis != nil {
+		if !g.redis.shared {
+			g.redis.srv.Close()
+		}
+		return
+	}
 	if g.dir != "" {
 		os.RemoveAll(g.dir)
 	}
@@ -200,10 +212,10 @@ func Run(r *ev.Run) {
 	r.Rule = "one evaluation = one oracle evaluation: one blob scanned for known secrets, one relocated file loaded, one single-bit flip or single-byte value change read back, one keystore/back-end call with a hostile id or path checked for effects outside the root, one created file/directory mode checked. " +
 		"Ring-level key-state histories (v2, oracle a): per history three rings (key pairs, symmetric keys, keys with both) of ten harness-supplied keys each, every key walked along a random legal path (api.KeyStateTransitionValid) to one of the states pre-active, active (directly and through suspended), suspended, deactivated, compromised, destroyed by SetState from each state that allows it, destroyed by DestroyKey; then ExportKeyRings (private / public-only), ImportKeyRings into an empty keystore and back into the same one (overwrite), KeyBackuper.Export/Import; every Put / Get / stored object / bundle scanned for the material of all keys. " +
 		"Distinct classes: (format/configuration, oracle, key kind or storage operation, sink / file role / flipped region / hostile-id class). " +
-		"Flips: quick = every byte of every stored key ring and v1 key file, one bit per byte (bit index = (offset+seed) mod 8); thorough = all 8 bits. Byte values (v2 key rings, every offset): quick = value-1, value+1, value/2, each of 0x10..0x1f where the stored byte is 0x20, 0, 0x7f, 0x80, 0x81, 0xff (values equal to the stored byte skipped, duplicates removed, so the count depends on the stored bytes); thorough = all 255 other values (the directory store once more with the quick set through real file rewrites); classes of this sweep: (configuration, key kind, DER element of the changed byte, tag/length/content). Tampering under handles that are already open (warm): per v2 back end a keystore handle that generated, read and destroyed keys, and per ring a read-write and a read-only ring handle that have been read and used for AddKey/SetState/SetCurrent/DestroyKey; then the stored ring is modified behind them (bit flips and DER-relevant byte values at one position per DER element plus every 29th/97th offset (thorough: every / every 4th offset), 8 truncations, 7 extensions, the stored bytes of 3 (thorough: all) other rings swapped in, 4 older valid versions replayed) and the same handles are used on: key reads, the four ring updates (order rotating), keystore getters / export / generate / destroy, then a handle opened afterwards; a positive-control update through the warm handle on restored storage every 12 cases. v1: per cache configuration a handle that generated and read every key, then current and newest rotated private-side files modified on disk (every 9th offset, cache off every 19th; thorough every offset; 4 truncations, 3 extensions, another owner's file, the other version of the same key), reads of current / all keys / export by id through the warm and a later handle, and update cases (rotate, destroy rotated, destroy current through the warm handle while a file is modified, then the reads again). Classes of this layer: (configuration, key kind or file role, mutation, region). Everything is a pure function of VERIF_SEED except key values, which are only compared after reading them back."
+		"Flips: quick = every byte of every stored key ring and v1 key file, one bit per byte (bit index = (offset+seed) mod 8); thorough = all 8 bits. Byte values (v2 key rings, every offset): quick = value-1, value+1, value/2, each of 0x10..0x1f where the stored byte is 0x20, 0, 0x7f, 0x80, 0x81, 0xff (values equal to the stored byte skipped, duplicates removed, so the count depends on the stored bytes); thorough = all 255 other values (the directory store once more with the quick set through real file rewrites); classes of this sweep: (configuration, key kind, DER element of the changed byte, tag/length/content). Tampering under handles that are already open (warm): per v2 back end a keystore handle that generated, read and destroyed keys, and per ring a read-write and a read-only ring handle that have been read and used for AddKey/SetState/SetCurrent/DestroyKey; then the stored ring is modified behind them (bit flips and DER-relevant byte values at one position per DER element plus every 29th/97th offset (thorough: every / every 4th offset), 8 truncations, 7 extensions, the stored bytes of 3 (thorough: all) other rings swapped in, 4 older valid versions replayed) and the same handles are used on: key reads, the four ring updates (order rotating), keystore getters / export / generate / destroy, then a handle opened afterwards; a positive-control update through the warm handle on restored storage every 12 cases. v1: per cache configuration a handle that generated and read every key, then current and newest rotated private-side files modified on disk (every 9th offset, cache off every 19th; thorough every offset; 4 truncations, 3 extensions, another owner's file, the other version of the same key), reads of current / all keys / export by id through the warm and a later handle, and update cases (rotate, destroy rotated, destroy current through the warm handle while a file is modified, then the reads again). Classes of this layer: (configuration, key kind or file role, mutation, region). Redis layer (keystores over RedisStorage / RedisBackend on the in-process stand-in server; counters ra_/rb_/rc_/rd_): 12 (thorough 150) histories of the same generator with 70 foreign keys in the database, every command argument and dataset value scanned (as is and base64-decoded), every mutating command checked for the key prefix; stored values copied / renamed / swapped in the dataset between all pairs of stored keys of different owners (v2: all pairs of rings), the five near-identical id pairs and a sibling keystore with other master keys; stored values changed in place (bit of every 3rd stored byte (v1, thorough: every byte) re-encoded, every 5th (v1 2nd, thorough every) base64 character replaced, 30 text-level changes per value; changes that still decode to the identical bytes are not judged); 44 hostile ids (those of the filesystem layer plus glob characters, CR LF, glob behind ../) x 16 keystore methods, OpenKeyRingRW, RedisBackend.Put/Get/Rename/RenameNX, judged by the dataset outside the prefix before/after, GETs of outside keys and (v1) commands naming outside keys; ordinary use beside a sibling keystore under <prefix>2. Classes: (configuration, layer, operation or move or change class, key role / relation / hostile-id class). Everything is a pure function of VERIF_SEED except key values, which are only compared after reading them back."
 	r.Assumptions = []string{
 		"crypto library replaced by the pure-Go gothemis stand-in (contract level: Secure Cell Seal authenticates data and context)",
-		"Redis storage / Redis back end not driven",
+		"Redis storage / Redis back end driven against the in-process stand-in server rig/fakeredis (RESP2, documented Redis semantics), not a real Redis server",
 		"the key cache is observed only when built with tag verif_hook_ks_cache (hook fixes/hook-ks-cache.diff); see coverage.extra.cache_hook",
 		"owner binding in v1 is demanded across owners only (client ids; server-global keys count as one owner), not across purposes of one identity",
 	}
@@ -218,6 +230,22 @@ func Run(r *ev.Run) {
 		runWarm(r)
 		return
 	}
+	if os.Getenv("C07_ONLY") == "redis" { // development aid: only the Redis layer
+		runRedis(r)
+		redisGuards(r, func(quick, thorough int64) int64 {
+			if r.Thorough() {
+				return thorough
+			}
+			return quick
+		})
+		return
+	}
+	// the Redis layer (redis.go) works on servers of its own: one more goroutine
+	redisDone := make(chan struct{})
+	go func() {
+		defer close(redisDone)
+		runRedis(r)
+	}()
 	// the warm-handle layer of oracle (c) works on stores of its own: it runs beside the other layers (one more goroutine)
 	warmDone := make(chan struct{})
 	go func() {
@@ -230,6 +258,7 @@ func Run(r *ev.Run) {
 	runTamper(r)
 	runConfinement(r)
 	<-warmDone
+	<-redisDone
 
 	q := func(quick, thorough int64) int64 {
 		if r.Thorough() {
@@ -307,4 +336,5 @@ func Run(r *ev.Run) {
 	if wrapV1Cache != nil {
 		r.RequireAtLeast("a_blobs_scanned_cache_entries", q(500, 10000))
 	}
+	redisGuards(r, q)
 }
